@@ -28,6 +28,8 @@ pub enum ROp {
     ReadAll,
     /// create an iterator and drive it with a program of std adaptors (nth, skip, step_by, last, count)
     Prog(Prog),
+    /// one item of an iteration that asks for another concrete type than the file holds: an error item
+    WrongType,
 }
 
 fn op_name(o: &ROp) -> String {
@@ -39,14 +41,16 @@ fn op_name(o: &ROp) -> String {
         ROp::Count => "Count".into(),
         ROp::ReadAll => "ReadAll".into(),
         ROp::Prog(p) => format!("Iter[{}]", p.name()),
+        ROp::WrongType => "IterAsAnotherType(1)".into(),
     }
 }
 fn op_from(s: &str) -> Option<ROp> {
-    let all: Vec<ROp> = (0..3).map(ROp::Iter).chain([ROp::Iter(ALL)]).chain((0..=N).map(ROp::Nth)).chain((0..=N).map(ROp::Seek)).chain([ROp::Count, ROp::ReadAll]).chain(PROGS.iter().map(|p| ROp::Prog(*p))).collect();
+    let all: Vec<ROp> = (0..3).map(ROp::Iter).chain([ROp::Iter(ALL)]).chain((0..=N).map(ROp::Nth)).chain((0..=N).map(ROp::Seek)).chain([ROp::Count, ROp::ReadAll]).chain(PROGS.iter().map(|p| ROp::Prog(*p))).chain([ROp::WrongType]).collect();
     all.into_iter().find(|o| op_name(o) == s)
 }
 
 /// action codes
+const WRONG: u8 = 14 + PROGS.len() as u8;
 fn decode(b: u8) -> ROp {
     match b {
         0..=2 => ROp::Iter(b as usize),
@@ -55,6 +59,7 @@ fn decode(b: u8) -> ROp {
         8..=11 => ROp::Seek(b as usize - 8),
         12 => ROp::Count,
         13 => ROp::ReadAll,
+        WRONG => ROp::WrongType,
         _ => ROp::Prog(PROGS[b as usize - 14]),
     }
 }
@@ -238,6 +243,13 @@ fn drive<T: std::io::Read + std::io::Seek>(r: &mut ShapeReader<T>, ops: &[ROp], 
             ROp::Seek(k) => Ans::Unit(r.seek(*k).map_err(|e| err_kind(&e))),
             ROp::Count => Ans::Count(r.shape_count().map_err(|e| err_kind(&e))),
             ROp::ReadAll => unreachable!(),
+            ROp::WrongType => {
+                let first = if recs[0].shape.ty.family() == Family::Point { crate::with_ty!(Ty::PolygonZ, S => r.iter_shapes_as::<S>().next().map(|x| x.map(|_| usize::MAX).map_err(|e| err_kind(&e))), unreachable!()) } else { r.iter_shapes_as::<shapefile::Point>().next().map(|x| x.map(|_| usize::MAX).map_err(|e| err_kind(&e))) };
+                match first {
+                    None => Ans::Items(vec![], true),
+                    Some(x) => Ans::Items(vec![x], false),
+                }
+            }
             ROp::Prog(p) => {
                 // the program runs on the library's iterator itself (a `map` in between would hide an overridden method)
                 let o = iterprog::run(r.iter_shapes(), *p, N + 3);
@@ -313,6 +325,13 @@ pub fn observe(case: &Case, fx: &Fixture) -> Vec<Ans> {
                     ROp::Seek(k) => Ans::Unit(r.seek(*k).map_err(|e| err_kind(&e))),
                     ROp::Count => Ans::Count(r.shape_count().map_err(|e| err_kind(&e))),
                     ROp::Nth(_) => unreachable!(),
+                    ROp::WrongType => {
+                        let first = if fx.recs[0].shape.ty.family() == Family::Point { crate::with_ty!(Ty::PolygonZ, S => r.iter_shapes_and_records_as::<S, shapefile::dbase::Record>().next().map(|x| x.map(|_| usize::MAX).map_err(|e| err_kind(&e))), unreachable!()) } else { r.iter_shapes_and_records_as::<shapefile::Point, shapefile::dbase::Record>().next().map(|x| x.map(|_| usize::MAX).map_err(|e| err_kind(&e))) };
+                        match first {
+                            None => Ans::Items(vec![], true),
+                            Some(x) => Ans::Items(vec![x], false),
+                        }
+                    }
                     ROp::Prog(p) => {
                         let o = iterprog::run(r.iter_shapes_and_records(), *p, N + 3);
                         Ans::Prog(iterprog::Out { answers: o.answers.into_iter().map(|a| a.map(|x| pair(x, &fx.recs))).collect(), count: o.count })
@@ -366,6 +385,25 @@ pub fn judge(case: &Case, answers: &[Ans]) -> Vec<(String, String)> {
                 matched.dedup();
                 p = matched;
                 prev_kind = if j == ALL { "full-iteration" } else { "partial-iteration" };
+            }
+            (ROp::WrongType, Ans::Items(items, _)) => {
+                // from a position with a record left: one error item (a type mismatch), the record and its row are
+                // consumed; from the end: nothing
+                let mut matched: Vec<usize> = vec![];
+                for &start in &p {
+                    let ok = if start < N { items.len() == 1 && matches!(&items[0], Err(e) if e.starts_with("MismatchShapeType")) } else { items.is_empty() };
+                    if ok {
+                        matched.push((start + 1).min(N));
+                    }
+                }
+                if matched.is_empty() {
+                    return fail("typed-item", format!("yielded {:?}; a new iteration may only start from {:?}", items, p));
+                }
+                matched.push(0);
+                matched.sort_unstable();
+                matched.dedup();
+                p = matched;
+                prev_kind = "mismatch-item";
             }
             (ROp::Prog(pr), Ans::Prog(o)) => {
                 let mut matched: Vec<usize> = vec![];
@@ -449,8 +487,8 @@ fn j_of(op: &ROp) -> usize {
 fn enabled(h: &Hist, progs: &[u8]) -> Vec<u8> {
     let p = progs.iter().map(|i| 14 + *i);
     match KINDS[h[0] as usize] {
-        Kind::ShapeReaderShx => (0..13).chain(p).collect(),
-        Kind::Complete => [0, 1, 2, 3, 8, 9, 10, 11, 12, 13].into_iter().chain(p).collect(),
+        Kind::ShapeReaderShx => (0..13).chain(p).chain([WRONG]).collect(),
+        Kind::Complete => [0, 1, 2, 3, 8, 9, 10, 11, 12, 13].into_iter().chain(p).chain([WRONG]).collect(),
         Kind::ShapeReaderNoShx => [0, 1, 2, 3, 4, 8, 12].into_iter().chain(p).collect(),
         Kind::CompleteNoShx => [0, 1, 2, 3, 8, 12, 13].into_iter().chain(p).collect(),
     }
@@ -578,7 +616,7 @@ pub fn check(tier: Tier) -> i32 {
             tier,
             level: "model_checking",
             engine: "E1 stateright BFS over reader call histories on the real ShapeReader / Reader; oracle = set-valued cursor model (RefReader)",
-            rule: "every sequence up to the depth bound over {Iter(0), Iter(1), Iter(2), Iter(all), Nth(0..3), Seek(0..3), Count} and 14 programs that drive a new iterator through the std adaptors an iterator type may override (nth(k) then next; next, nth(k), next; nth, nth; skip(k); next then skip; step_by(2); last; next then last; count; nth(usize::MAX) fresh and after a next), judged against the same program over the plain sequence of remaining records; base alphabet: (ShapeReader with index, 13 actions), {Iter*, Seek*, Count, ReadAll} (complete Reader, 10 actions; the same over a shape reader without index, where seek and count must answer MissingIndexFile), {Iter*, Nth(0), Seek(0), Count} (ShapeReader without index: the last three must answer MissingIndexFile) x files of 3 records with pairwise different sizes, with equal sizes, and (readers with an index) stored out of order with fillers between them behind sources returning at most 3 bytes per read, and (ShapeReader with index) at byte offsets beyond 2^31 and 3*2^30 on a sparse source, x types; non-trivial = >= 2 operations",
+            rule: "every sequence up to the depth bound over {Iter(0), Iter(1), Iter(2), Iter(all), Nth(0..3), Seek(0..3), Count} and 14 programs that drive a new iterator through the std adaptors an iterator type may override (nth(k) then next; next, nth(k), next; nth, nth; skip(k); next then skip; step_by(2); last; next then last; count; nth(usize::MAX) fresh and after a next), judged against the same program over the plain sequence of remaining records; for readers with an index also IterAsAnotherType(1): one item of an iteration (pair iteration on the complete Reader) that asks for another concrete type than the file holds, which must be one type-mismatch error that consumes the record and its row; base alphabet: (ShapeReader with index, 13 actions), {Iter*, Seek*, Count, ReadAll} (complete Reader, 10 actions; the same over a shape reader without index, where seek and count must answer MissingIndexFile), {Iter*, Nth(0), Seek(0), Count} (ShapeReader without index: the last three must answer MissingIndexFile) x files of 3 records with pairwise different sizes, with equal sizes, and (readers with an index) stored out of order with fillers between them behind sources returning at most 3 bytes per read, and (ShapeReader with index) at byte offsets beyond 2^31 and 3*2^30 on a sparse source, x types; non-trivial = >= 2 operations",
             bounds: json!({"depth": tier.pick("4 (all 14 adaptor programs)", "5 (5 adaptor programs) and 4 (all 14)"), "records": N, "types": types.iter().map(|t| t.name()).collect::<Vec<_>>()}),
             exhaustive: true,
             assumptions: vec!["the model is non-deterministic after a partial iteration exactly as the statement is: a further iteration may continue or restart".into()],
